@@ -9,21 +9,6 @@ import AgdbDb.Props.C08
 namespace AgdbDb
 open Graph
 
-/-- the graph mutations `DbImpl` performs -/
-inductive GOp
-  | insertNode
-  | insertEdge (s d : Nat)
-  | removeEdge (e : Nat)
-  | removeNode (n : Nat)
-
-def GOp.runG (g : Graph) : GOp → Graph
-  | .insertNode => g.insertNode.2
-  | .insertEdge s d => match g.insertEdge s d with
-    | .ok r => r.2
-    | .error _ => g
-  | .removeEdge e => g.removeEdge e
-  | .removeNode n => g.removeNode n
-
 /-- the same on the arrays; `none` = a loop ran out of fuel -/
 def GOp.runC (c : CGraph) : GOp → Option CGraph
   | .insertNode => some c.insertNode.2
@@ -38,26 +23,11 @@ def GOp.runC (c : CGraph) : GOp → Option CGraph
     | .ok c' => some c'
     | .error _ => none
 
-/-- `DbImpl::remove_node` removes the incident edges before it calls `graph.remove_node`; the undo of an
-    `insert_node` removes a node that has no edges (both are proved as preconditions in `Lemmas/Fwd.lean` /
-    `pre (.removeNode _)`): `remove_node` is only ever applied to a node with empty chains. -/
-def GOp.admissible (g : Graph) : GOp → Prop
-  | .removeNode n => g.kind n = .node → g.outOf n = [] ∧ g.inOf n = []
-  | _ => True
-
-def runAllG : List GOp → Graph → Graph
-  | [], g => g
-  | op :: ops, g => runAllG ops (op.runG g)
-
 def runAllC : List GOp → CGraph → Option CGraph
   | [], c => some c
   | op :: ops, c => match op.runC c with
     | some c' => runAllC ops c'
     | none => none
-
-def admissibleAll : List GOp → Graph → Prop
-  | [], _ => True
-  | op :: ops, g => op.admissible g ∧ admissibleAll ops (op.runG g)
 
 /-- One step: every array-level mutation terminates (never out of fuel), returns the same index, reports the same
     failure, and ends in a state that represents the list-level result. -/
@@ -172,6 +142,37 @@ theorem C08_arrays_refine : ∀ (ops : List GOp) (c : CGraph) (g : Graph), Rep c
     obtain ⟨c1, hc1, r1⟩ := step
     obtain ⟨c', hc', r', wf'⟩ := ih c1 (op.runG g) r1 w' hb' hadm2
     exact ⟨c', by simp only [runAllC, hc1]; exact hc', r', wf'⟩
+
+/-- End to end: along ANY history of mutating queries (also failing ones) the model's graph is reached from the start
+    graph by a sequence of admissible graph mutations (`DbImpl` never calls `remove_node` on a node that still has edges),
+    so arrays driven through the same mutations keep representing it; the same holds for the graph after a rollback. -/
+theorem C08_arrays_history (qs : List Db.MQuery) (hd : ∀ q ∈ qs, q.distinctKeys) (s : Db) (hi : s.Inv) (hu : s.undo = [])
+    (c : CGraph) (hr : Rep c s.graph) :
+    (∃ ops, admissibleAll ops s.graph ∧ (Db.runAll qs s).2.graph = runAllG ops s.graph ∧
+      (s.graph.slots.length + ops.length < i64Bound →
+        ∃ c', runAllC ops c = some c' ∧ Rep c' (Db.runAll qs s).2.graph)) ∧
+    (∃ r ops, (Db.runAll qs s).2.rollback = some r ∧ admissibleAll ops s.graph ∧ r.graph = runAllG ops s.graph ∧
+      (s.graph.slots.length + ops.length < i64Bound → ∃ c', runAllC ops c = some c' ∧ Rep c' r.graph)) := by
+  have hsafe : ∀ (qs : List Db.MQuery), (∀ q ∈ qs, q.distinctKeys) → Safe (Db.runAll qs) := by
+    intro qs
+    induction qs with
+    | nil => intro _; exact Safe.pure ()
+    | cons q rest ih =>
+      intro h
+      refine Safe.bind (safe_run q ?_) (fun _ => ih (fun q' hq' => h q' (List.mem_cons_of_mem _ hq')))
+      have := h q (by simp)
+      cases q <;> first | exact this | trivial
+  have hf := hsafe qs hd s hi
+  obtain ⟨ops, ha, he⟩ := hf.2.2
+  obtain ⟨r, hro, _, _, _, hrg⟩ := rollback_of_fwd s _ hu hi hf
+  obtain ⟨ops2, ha2, he2⟩ := (hf.2.2).trans hrg
+  refine ⟨⟨ops, ha, he, ?_⟩, ⟨r, ops2, hro, ha2, he2, ?_⟩⟩
+  · intro hb
+    obtain ⟨c', h1, h2, _⟩ := C08_arrays_refine ops c s.graph hr hi.sinv.wf hb ha
+    exact ⟨c', h1, by rw [he]; exact h2⟩
+  · intro hb
+    obtain ⟨c', h1, h2, _⟩ := C08_arrays_refine ops2 c s.graph hr hi.sinv.wf hb ha2
+    exact ⟨c', h1, by rw [he2]; exact h2⟩
 
 /-- the empty arrays of `GraphDataStorage::new` represent the empty graph -/
 theorem C08_arrays_init : Rep CGraph.empty Graph.empty ∧ Graph.empty.WF := ⟨rep_empty, wf_empty⟩
